@@ -81,10 +81,14 @@ def gen_case(rng, mode=None, stochastic=None, custom_kind=None, adc=None, clock=
     if adc and case["mode"] != "custom":
         # a swept setting that changes a bucket's dtype: the ADC resolution decides the dtype of the image
         bits = rng.sample([8, 12, 16, 24, 32], rng.choice([2, 3]))
+        if adc == "wide" or rng.random() < 0.4:
+            # the first combination (smallest resolution) has at most 32 bits, a later one more, with codes >= 2**32
+            bits = [rng.choice([8, 16, 32]), rng.choice([40, 48, 64])] + ([24] if rng.random() < 0.5 else [])
+            rng.shuffle(bits)
         case["params"].append({"key": "detector.characteristics.adc_bit_resolution", "decl": bits, "expect": bits,
                                "enabled": True, "multi": False})
         case["fields"] = sorted(set(case["fields"]) | {"characteristics.adc_bit_resolution"})
-        case["adc"] = rng.choice([200, 60000, 3000000])
+        case["adc"] = rng.choice([200, 60000, 3000000]) if max(bits) <= 32 else rng.choice([2**32 + 5, 2**40 + 123, 2**33])
     if clock is None:
         clock = rng.random() < 0.2
     if clock:
@@ -483,8 +487,8 @@ def body(ck: common.Check):
     for mode in ("product", "sequential", "custom"):
         for st in (None, "pipeline_seed", "model_seed"):
             cases.append(("directed", gen_case(rng, mode=mode, stochastic=st or False, custom_kind="plain", adc=False, clock=False)))
-    for mode in ("product", "sequential"):
-        cases.append(("directed", gen_case(rng, mode=mode, stochastic=False, adc=True, clock=False)))
+    for mode, adc in (("product", True), ("sequential", "wide"), ("product", "wide")):
+        cases.append(("directed", gen_case(rng, mode=mode, stochastic=False, adc=adc, clock=False)))
     for mode in ("product", "sequential"):
         cases.append(("directed", gen_case(rng, mode=mode, adc=False, clock=True)))
     # APD: two interdependent detector settings, declared in both key orders (product and sequential mode)
